@@ -22,8 +22,11 @@ EXTENDS SchemaFamily
 Ann(fd) == IF "ann" \in DOMAIN fd THEN fd.ann ELSE ""
 \* a field may carry both annotations
 Both == "go.redact, go.nolog"
-IsRedact(fd) == Ann(fd) \in {"go.redact", Both}
-IsNolog(fd)  == Ann(fd) \in {"go.nolog", Both}
+\* the annotations count by their presence, whatever value they are given
+RedactSpellings == { "go.redact", "go.redact = \"\"", "go.redact = \"true\"", "go.redact = \"false\"", "go.redact = \"yes\"", "go.redact = \"0\"" }
+NologSpellings  == { "go.nolog", "go.nolog = \"false\"", "go.nolog = \"no\"" }
+IsRedact(fd) == Ann(fd) \in RedactSpellings \cup {Both}
+IsNolog(fd)  == Ann(fd) \in NologSpellings \cup {Both}
 
 CONSTANT RawKinds       \* container kinds that print their items raw, bypassing the item's own redaction ({} in the templates)
 
